@@ -117,7 +117,7 @@ def rows_of(dispatcher):
 
 class C17(Check):
     pid = "C17"
-    LATE_ATTACH = False
+    LATE_ATTACH = True
     assumptions = [
         "durations >= 0 (the property says positive; the proofs do not need it), every operation has >= 1 "
         "machine, every job non-empty",
